@@ -852,3 +852,16 @@ package zygo
 
 // the write funnel: the bucket map and the key-order list of a hash are written only here
 //@ writers C17 SexpHash | Map, KeyOrder, NumKeys | (*SexpHash).HashSet, (*SexpHash).HashDelete, (*SexpHash).removeFromKeyOrder, MakeHash, SetHashKeyOrder, (*SexpHash).CloneFrom
+
+// ===========================================================================
+// C20  evaluation is deterministic: first-match scans over Go maps
+// ===========================================================================
+//@ maporder C20 hashutils.go
+//@ maporder C20 callgo.go
+//@ maporder C20 jsonmsgp.go
+//@ maporder C20 gotypereg.go
+//@ maporder C20 scopes.go
+//@ maporder C20 environment.go
+//@ maporder C20 functions.go
+//@ maporder C20 builders.go
+//@ maporder C20 typeutils.go
